@@ -11,7 +11,16 @@ L = 7  # lattice points per cycle (coprime to every bin count used)
 T0 = 58000.0
 
 
-def _data(slots, P, order=None, mirror=False):
+def _tref_time(tref, P):
+    from astropy.time import Time
+
+    if tref is None:
+        return None
+    c, k = tref
+    return Time(float(T0 + (c + Fraction(k, L)) * P), format="mjd", scale="tcb")
+
+
+def _data(slots, P, order=None, mirror=False, tref=None, sort=True):
     import astropy.units as u
     from astropy.time import Time
     from thejoker import RVData
@@ -24,7 +33,12 @@ def _data(slots, P, order=None, mirror=False):
         tt = 2 * T0 + 10 * P - tt
     rv = np.arange(len(tt), dtype=float) * u.km / u.s
     err = np.ones(len(tt)) * u.km / u.s
-    return RVData(Time(tt, format="mjd", scale="tcb"), rv, err)
+    kw = {}
+    if tref is not None:
+        kw["t_ref"] = _tref_time(tref, P)
+    if not sort:
+        kw["sort"] = False
+    return RVData(Time(tt, format="mjd", scale="tcb"), rv, err, **kw)
 
 
 def _sample(P):
@@ -36,12 +50,12 @@ def _sample(P):
     return s
 
 
-def ref_phases(slots, mirror=False):
-    """Exact phases (Fractions) relative to the earliest observation."""
+def ref_phases(slots, mirror=False, tref=None):
+    """Exact phases (Fractions) relative to the reference epoch (default: the earliest observation)."""
     pos = [c * L + k for c, k in slots]
     if mirror:
         pos = [-p for p in pos]
-    p0 = min(pos)
+    p0 = min(pos) if tref is None else tref[0] * L + tref[1]
     return [Fraction((p - p0) % L, L) for p in pos], Fraction(max(pos) - min(pos), L)
 
 
@@ -53,17 +67,22 @@ def ref_max_gap(phases):
     return max(gaps)
 
 
-def ref_coverage(phases, n_bins, zero_last=False):
-    occ = set()
-    for i, p in enumerate(phases):
-        b = int(p * n_bins)  # floor; p < 1
-        if zero_last and p == 0 and i in ref_coverage.nonref:
-            b = n_bins - 1
-        occ.add(b)
-    return len(occ) / n_bins
+def ref_coverage_options(phases, n_bins, ambiguous):
+    """set of acceptable coverage values: an observation a whole number of cycles away from the reference epoch
+    (exact phase 0 but not the reference itself) may round into the first or the last bin"""
+    import itertools as it
 
-
-ref_coverage.nonref = set()
+    amb = [i for i in ambiguous if phases[i] == 0]
+    out = set()
+    for choice in it.product([0, 1], repeat=len(amb)):
+        occ = set()
+        for i, p in enumerate(phases):
+            b = int(p * n_bins)
+            if i in amb and choice[amb.index(i)]:
+                b = n_bins - 1
+            occ.add(b)
+        out.add(len(occ) / n_bins)
+    return out
 
 
 def check_diag(case, part):
@@ -71,46 +90,46 @@ def check_diag(case, part):
 
     slots = [tuple(s) for s in case["slots"]]
     P = case["P"]
-    phases, base = ref_phases(slots)
+    tref = tuple(case["tref"]) if case.get("tref") else None
+    phases, base = ref_phases(slots, tref=tref)
     samp = _sample(P)
     want_gap = float(ref_max_gap(phases))
     want_span = float(base)  # baseline / P in cycles
-    orders = case["orders"]
+    pos = [c * L + k for c, k in slots]
+    p0 = min(pos) if tref is None else tref[0] * L + tref[1]
+    ambiguous = {i for i, p in enumerate(pos) if p != p0}
     obs = []
-    for order in orders:
-        d = _data(slots, P, order=order)
-        try:
-            gap = float(np.squeeze(sa.max_phase_gap(samp, d)))
-            span = float(np.squeeze(sa.periods_spanned(samp, d)))
-            covs = {nb: float(np.squeeze(sa.phase_coverage(samp, d, n_bins=nb))) for nb in case["bins"]}
-        except Exception as e:
-            part.violation(case, f"diagnostic raised {type(e).__name__}: {e}")
-            return
-        obs.append((gap, span, covs))
-        if abs(gap - want_gap) > 1e-7:
-            part.violation(dict(case, order=order), "max_phase_gap != largest empty arc on the phase circle (incl. the arc across 1->0)",
-                           expected=want_gap, observed=gap)
-            return
-        if abs(span - want_span) > 1e-7 * max(1, want_span):
-            part.violation(dict(case, order=order), "periods_spanned != baseline / P", expected=want_span, observed=span)
-            return
-        # points that fall exactly on the reference phase in a later cycle may round to either side of 0/1
-        pos = [c * L + k for c, k in slots]
-        p0 = min(pos)
-        ref_coverage.nonref = {i for i, p in enumerate(pos) if p != p0}
-        for nb in case["bins"]:
-            w1 = ref_coverage(phases, nb)
-            w2 = ref_coverage(phases, nb, zero_last=True)
-            if abs(covs[nb] - w1) > 1e-12 and abs(covs[nb] - w2) > 1e-12:
-                part.violation(dict(case, order=order, n_bins=nb), "phase_coverage != occupied bins / n_bins",
-                               expected=sorted({w1, w2}), observed=covs[nb])
+    for order in case["orders"]:
+        for sort in (True, False):
+            c2 = dict(case, order=order, sort=sort)
+            try:
+                d = _data(slots, P, order=order, tref=tref, sort=sort)
+                gap = float(np.squeeze(sa.max_phase_gap(samp, d)))
+                span = float(np.squeeze(sa.periods_spanned(samp, d)))
+                covs = {nb: float(np.squeeze(sa.phase_coverage(samp, d, n_bins=nb))) for nb in case["bins"]}
+            except Exception as e:
+                part.violation(c2, f"diagnostic raised {type(e).__name__}: {e}")
                 return
+            obs.append((gap, span, covs))
+            if abs(gap - want_gap) > 1e-7:
+                part.violation(c2, "max_phase_gap != largest empty arc on the phase circle (incl. the arc across 1->0)",
+                               expected=want_gap, observed=gap)
+                return
+            if abs(span - want_span) > 1e-7 * max(1, want_span):
+                part.violation(c2, "periods_spanned != baseline / P", expected=want_span, observed=span)
+                return
+            for nb in case["bins"]:
+                opts = ref_coverage_options(phases, nb, ambiguous)
+                if all(abs(covs[nb] - w) > 1e-12 for w in opts):
+                    part.violation(dict(c2, n_bins=nb), "phase_coverage != occupied bins / n_bins", expected=sorted(opts), observed=covs[nb])
+                    return
     # order independence is implied by agreement of every order with the same expected value; time reversal:
-    dm = _data(slots, P, mirror=True)
-    gm = float(np.squeeze(sa.max_phase_gap(samp, dm)))
-    if abs(gm - want_gap) > 1e-7:
-        part.violation(dict(case, mirror=True), "max_phase_gap changes under time reversal of the observing pattern",
-                       expected=want_gap, observed=gm)
+    if tref is None:
+        dm = _data(slots, P, mirror=True)
+        gm = float(np.squeeze(sa.max_phase_gap(samp, dm)))
+        if abs(gm - want_gap) > 1e-7:
+            part.violation(dict(case, mirror=True), "max_phase_gap changes under time reversal of the observing pattern",
+                           expected=want_gap, observed=gm)
     # non-trivial: the wrap-around arc is the strictly largest one
     ph = sorted(set(phases))
     wrap = ph[0] + 1 - ph[-1]
@@ -184,7 +203,10 @@ def build_cases(quick, seed):
             else:
                 orders = [list(range(r)), list(range(r))[::-1], list(range(1, r)) + [0]]
             for P in periods:
-                cases.append(dict(kind="diag", slots=[list(s) for s in sub], P=P, bins=bins, orders=orders))
+                for tref in (None, [-1, 3], [1, 2]):
+                    if tref is not None and r > 3 and P != periods[1]:
+                        continue
+                    cases.append(dict(kind="diag", slots=[list(s) for s in sub], P=P, bins=bins, orders=orders, tref=tref))
     vals = [(-2.0, -1.0, 0.0)] * 2
     maps = []
     pairs = list(itertools.product(*vals))
@@ -198,7 +220,8 @@ def main():
     chk = core.Check(
         PID, "exploration",
         "all subsets (size<=4 quick / 5 thorough) of a 7-per-cycle phase lattice over cycles {0,2} x 3 periods x 3 bin "
-        "counts x input orders (all permutations for size<=3) + time-reversed pattern, vs exact rational definitions; all "
+        "counts x input orders (all permutations for size<=3; each with sort=True and sort=False) x reference epoch {default, explicit before all "
+        "observations, explicit between them} + time-reversed pattern, vs exact rational definitions; all "
         "MAP tables with N<=3 (quick) / 4 rows over {-2,-1,0}^2 per row. Non-trivial (diag): the arc across phase 1->0 is "
         "strictly the largest; (MAP): the maximiser is not row 0 and sums are not all equal.",
     )
